@@ -248,4 +248,19 @@ def run(ctx):
     drive(ctx, cases(), exec_case, max(1, int(ctx.params["n"] * ctx.params.get("scale", 1))))
 
 
-SUBCHECKS = {"scales": {"run": run, "execute": exec_case}}
+def _order():
+    from checks import prelude
+
+    return prelude.make_order(cases(), exec_case, lambda c: [c["dtype"], c["qtype"], c["entry"], c["axis"], c["perturb"]])
+
+
+def run_order(ctx):
+    strategy, execute = _order()
+    drive(ctx, strategy, execute, max(1, int(ctx.params["n"] * ctx.params.get("scale", 1))))
+
+
+def exec_order(case):
+    return _order()[1](case)
+
+
+SUBCHECKS = {"scales": {"run": run, "execute": exec_case}, "order": {"run": run_order, "execute": exec_order}}
